@@ -13,9 +13,16 @@ def run_cases(ctx, binary, cases, tag):
     fin = os.path.join(ctx.scratch, "cases-%s.in.json" % tag)
     fout = os.path.join(ctx.scratch, "cases-%s.out.ndjson" % tag)
     vf.write_json(fin, {"cases": cases})
-    rc, out = ctx.run_bin(binary, "TestVerifCrossVMCases", env={"VERIF_IN": fin, "VERIF_OUT": fout}, timeout=900)
+    prog = os.path.join(ctx.scratch, "progress-%s" % tag)
+    rc, out = ctx.run_bin(binary, "TestVerifCrossVMCases", env={"VERIF_IN": fin, "VERIF_OUT": fout, "VERIF_PROGRESS": prog}, timeout=900)
     if rc != 0:
-        ctx.infra("crossvm harness failed rc=%s" % rc)
+        # panics are recovered in the harness: a dead process is a fatal error (out of memory, stack overflow) of the codec
+        last = open(prog).read().strip() if os.path.exists(prog) else None
+        if last is not None and ("out of memory" in out or "fatal error" in out or rc == -9):
+            c = cases[int(last)]
+            ctx.violation("%s:process-died:%s" % (FN[c["name"]], c["kind"]), {"rc": rc, "tail": out[-400:], "case": c}, {"case": c})
+        else:
+            ctx.infra("crossvm harness failed rc=%s" % rc)
         return None
     obs = vf.read_ndjson(fout)
     if len(obs) != len(cases):
@@ -47,7 +54,9 @@ def judge(ctx, cases, obs):
             else:
                 ctx.infra("MODEL-DRIFT %s rejects (%s) an input the specification accepts: %s" % (fn, real, slim))
         elif real == "ok":
-            if o.get("canon") is False or o.get("bad"):
+            if c["kind"] == "badprefix" and c["in"][:{"Call": 1, "Notify": 4}[c["name"]]] != {"Call": [0], "Notify": [101, 118, 116, 0]}[c["name"]]:
+                ctx.violation("%s:wrong-prefix-accepted" % fn, {"case": slim}, rp)
+            elif o.get("canon") is False or o.get("bad"):
                 # accepted although malformed, and the decoded value does not encode back to the input
                 ctx.violation("%s:malformed-accepted:%s" % (fn, c["kind"]), {"diff": o.get("bad"), "spec": c["res"], "case": slim}, rp)
             else:
